@@ -197,7 +197,7 @@ func TestC10(t *testing.T) {
 			c.Dst = genDst(rt, c.Src)
 		}
 		rows := c.Src.Rect[3] - c.Src.Rect[1]
-		c.Par = rapid.SampledFrom([]int{1, 2, 3, 7, 16, rows + 5}).Draw(rt, "parallelism")
+		c.Par = rapid.SampledFrom(parChoices(rows)).Draw(rt, "parallelism")
 		c.Transform = rapid.SampledFrom(Transforms).Draw(rt, "transform")
 		ev.Eval(1)
 		k, w, cl := check(c)
@@ -218,4 +218,15 @@ func TestC10(t *testing.T) {
 	if ev.Violations() > 0 {
 		t.Fail()
 	}
+}
+
+// parChoices: the stated set {1,2,3,7,16,rows+5} plus parallelism equal to (and adjacent to) the number of rows
+func parChoices(rows int) []int {
+	c := []int{1, 2, 3, 7, 16, rows + 5}
+	for _, p := range []int{rows - 1, rows, rows + 1, 4, 8} {
+		if p >= 1 {
+			c = append(c, p)
+		}
+	}
+	return c
 }
